@@ -370,6 +370,16 @@ def run_cmd(case):
             sys.stdout, sys.stderr = so, se
             os.chdir(cwd)
         after = snapshot(work)
+        base_role = role
+
+        def role(p):          # noqa: F811  (a path that exists neither before nor after is transient)
+            r = base_role(p)
+            if r in ("O", "M", "N") or r.startswith("P:"):
+                return r
+            rel = os.path.relpath(os.path.abspath(p), work)
+            if rel not in before and rel not in after:
+                return "probe"
+            return r
         rec["ops"] = [{"kind": e["kind"], "p": role(e["path"]), "p2": role(e["path2"]) if e["path2"] else "",
                        "d": "", "extra": e.get("extra", -1)} for e in log["log"]]
         rec["added"], rec["removed"], rec["changed"] = _diff(
